@@ -147,14 +147,23 @@ def rawSetDir (s : St) (d : DirArg) : Except Err St :=
 /-- the loop of `Reaction.add_metabolites` over metabolites that exist in the model, then the solver row
 update for every metabolite of the reaction and the removal of zero coefficients (a zero coefficient *is*
 absence in this representation, so only the back-reference has to follow) -/
-def addMetsLoop (combine : Bool) (r : Id) (present : Id → Bool) : List (Id × Rat) → (Id → Id → Rat) → (Id → Id → Rat)
-  | [], st => st
-  | (m, c) :: ps, st =>
-    addMetsLoop combine r present ps (upd2 st r m (if present m ∧ combine then st r m + c else c))
+def lookupA (acc : List (Id × Rat)) (m : Id) : Option Rat :=
+  match acc.find? (fun p => p.1 == m) with
+  | some p => some p.2
+  | none => none
+
+/-- the loop: `acc` collects the new coefficients of reaction `r` (newest first) as *data*; the coefficient a
+step sees is the newest one in `acc`, else the one in the state -/
+def addMetsLoop (combine : Bool) (base : Id → Rat) (present : Id → Bool) : List (Id × Rat) → List (Id × Rat) → List (Id × Rat)
+  | [], acc => acc
+  | (m, c) :: ps, acc =>
+    let cur := (lookupA acc m).getD (base m)
+    addMetsLoop combine base present ps ((m, if present m ∧ combine then cur + c else c) :: acc)
 
 def addMetsRaw (s : St) (r : Id) (ps : List (Id × Rat)) (combine : Bool) : St :=
   let present (m : Id) : Bool := decide (s.st r m ≠ 0)       -- `_id_to_metabolites`, computed before the loop
-  let st' := addMetsLoop combine r present ps s.st
+  let acc := addMetsLoop combine (s.st r) present ps []
+  let st' : Id → Id → Rat := fun x y => if x = r then (lookupA acc y).getD (s.st x y) else s.st x y
   let touched (m : Id) : Bool := ps.any (fun p => p.1 == m)
   { s with
     st := st',
